@@ -30,7 +30,8 @@ if [ "${FROM_HEAD:-0}" = 1 ]; then
   git -C /verif archive HEAD | (mkdir -p "$T/verif" && tar -x -C "$T/verif")
   rsync -a --include='*/' --include='*.vo' --include='*.glob' --include='.*.aux' --include='Makefile*' --include='.Makefile.d' --exclude='*' /verif/coq/ "$T/verif/coq/"
 else
-  rsync -a --exclude .git --exclude 'build/t-*' --exclude replays --exclude seeded /verif/ "$T/verif/"
+  # VERIF_SRC: a pristine built copy of /verif to start from (used while other work is in progress in /verif itself)
+  rsync -a --exclude .git --exclude 'build/t-*' --exclude replays --exclude seeded "${VERIF_SRC:-/verif}/" "$T/verif/"
 fi
 mkdir -p "$T/verif/replays" "$T/verif/build"
 sed -i "s#=> /repo#=> $T/repo#" "$T/verif/go/go.mod"
